@@ -669,16 +669,12 @@ func (h *hydra) SubscribeToSwampEvents(clientID uuid.UUID, swampName name.Name, 
 		}
 	}()
 
-	if subscribers, ok := h.eventSubscribers.Load(canonicalForm); ok {
-		// Always overwrite the subscriber, since the channel may have changed as well.
-		subscribers.(*sync.Map).Store(clientID.String(), subscriberEventCallbackFunction)
-		return nil
-	}
-
-	// there is no subscribers to this swamp yet
-	subscribers := &sync.Map{}
-	subscribers.Store(clientID.String(), subscriberEventCallbackFunction)
-	h.eventSubscribers.Store(canonicalForm, subscribers)
+	// LoadOrStore: two clients subscribing to the same swamp at the same time must end up in the
+	// same subscriber map. With a separate Load and Store both could find no map, each create
+	// its own, and the second Store dropped the first client's subscription for good.
+	subscribers, _ := h.eventSubscribers.LoadOrStore(canonicalForm, &sync.Map{})
+	// Always overwrite the subscriber, since the channel may have changed as well.
+	subscribers.(*sync.Map).Store(clientID.String(), subscriberEventCallbackFunction)
 
 	return nil
 
